@@ -23,9 +23,15 @@ Proved here, for ALL trees / environments (no bound):
   64 bits, and that literal evaluates to that number in the reference semantics.
 * `C09_translator_*` — the lists re-extracted from `/repo` on every run (`Gen/StageForms.lean`): every `Expr` variant
   and every combinator `translate_code` emits is classified by the model, every combinator the model implements is
-  registered by the compiler — and `C09_match_has_no_decoder`: `translate_code` emits `code_match`, which
-  `codegen_combinator_signatures` does not register (finding S4: any program that uses the macro system and contains a
-  `match` is rejected; witness replayed on the real compiler by the check).
+  registered by the compiler, and (`C09_translator_emitted_registered`) every combinator `translate_code` emits has a
+  decoder registered by `codegen_combinator_signatures` (false for `code_match` until the repair of finding S4; the
+  former witness is a corpus pair of the check's real-only stream).
+
+NOT modelled: `match`, records, array access and default parameters (`unmodelledForms` / `unmodelledCombinators`), and
+the closing of an OPEN definition chain in a splice operand (`translate_escape_operand`: a file that ends in a
+macro-stage section — `Ex` has no `let` without a continuation; on every tree of `Ex` whose chain of `let`/`then`
+continuations does not END in an assignment the function is `translate_stage0`, which is what `trCode (.escape e)` uses). These are compared on the real compiler only
+(staged source vs hand-written expansion: corpus pairs and every shipped source behind a macro-stage prefix).
 
 NOT proved: that the bytecode VM executing the stage-0 program computes what `ev0` computes, type checking before and
 after expansion, and the parser — these are exercised by the correspondence stage (`./check C09`), which compares the
@@ -126,14 +132,11 @@ theorem C09_translator_modelled_registered :
 that same function — the source-level facts `C09_lift_exact` rests on -/
 theorem C09_translator_literal_printing : Gen.litPrintedWithToString = true ∧ Gen.liftIsLit = true := by decide
 
-/-- every emitted combinator except `code_match` has a decoder … -/
-theorem C09_translator_emitted_registered_partial :
-    ∀ c ∈ Gen.emittedCombinators, c ≠ "code_match" → c ∈ Gen.registeredCombinators := by decide
-
-/-- … `code_match` has none: `match` inside quoted code (i.e. anywhere in the main stage of a program that uses the
-macro system) cannot be expanded (finding S4) -/
-theorem C09_match_has_no_decoder :
-    "code_match" ∈ Gen.emittedCombinators ∧ "code_match" ∉ Gen.registeredCombinators := by decide
+/-- every combinator `translate_code` emits has a decoder: `codegen_combinator_signatures` registers it. (Until the
+repair LIB-4 this held for all but `code_match` — finding S4, then stated as `C09_match_has_no_decoder`: any program
+that used the macro system and had a `match` in its main stage was rejected.) -/
+theorem C09_translator_emitted_registered :
+    ∀ c ∈ Gen.emittedCombinators, c ∈ Gen.registeredCombinators := by decide
 
 /-! ### non-vacuity -/
 example : ev0 100 [] (trStage0 (.bracket (.letE "y" (.flt 7) (.app (.var "add") [.var "y", .now])))) =
